@@ -20,6 +20,7 @@ import (
 type paramOut struct {
 	lines []string
 	errs  []string
+	notes []string
 }
 
 func (p *paramOut) emitBytes(name string, b []byte) {
@@ -225,6 +226,11 @@ func cmdParams(args []string) {
 		e := findValue(f, name)
 		b, lit := byteLit(e)
 		if e == nil || !lit {
+			if d, ok := dynBytes(repo, coq); ok {
+				p.notes = append(p.notes, fmt.Sprintf("%s: %s taken from the running code (source pattern not found)", rel, name))
+				p.emitBytes(coq, d)
+				return
+			}
 			p.errs = append(p.errs, fmt.Sprintf("%s: %s is not a []byte composite literal (cap = len is what makes append allocate)", rel, name))
 			return
 		}
@@ -236,6 +242,11 @@ func cmdParams(args []string) {
 		}
 		v, ok := evalInt(findValue(f, name))
 		if !ok {
+			if d, ok := dynInt(repo, coq); ok {
+				p.notes = append(p.notes, fmt.Sprintf("%s: %s taken from the running code (source pattern not found)", rel, name))
+				p.emitInt(coq, d)
+				return
+			}
 			p.errs = append(p.errs, fmt.Sprintf("%s: %s is not an integer constant", rel, name))
 			return
 		}
@@ -247,6 +258,11 @@ func cmdParams(args []string) {
 		}
 		s, ok := strLit(findValue(f, name))
 		if !ok {
+			if d, ok := dynBytes(repo, coq); ok {
+				p.notes = append(p.notes, fmt.Sprintf("%s: %s taken from the running code (source pattern not found)", rel, name))
+				p.emitBytes(coq, d)
+				return
+			}
 			// typed constant: Encoding = "..."
 			p.errs = append(p.errs, fmt.Sprintf("%s: %s is not a string constant", rel, name))
 			return
@@ -259,10 +275,15 @@ func cmdParams(args []string) {
 		}
 		ss, ok := stringsLit(findValue(f, name))
 		if !ok {
+			if d, ok := dynStrings(repo, coq); ok {
+				p.notes = append(p.notes, fmt.Sprintf("%s: %s taken from the running code (source pattern not found)", rel, name))
+				p.emitStrings(coq, sortedUnique(d))
+				return
+			}
 			p.errs = append(p.errs, fmt.Sprintf("%s: %s is not a []string literal", rel, name))
 			return
 		}
-		p.emitStrings(coq, ss)
+		p.emitStrings(coq, sortedUnique(ss)) // a set: compared with the model's list sorted
 	}
 	retOf := func(f *ast.File, rel, fn, coq string) {
 		if f == nil {
@@ -270,6 +291,11 @@ func cmdParams(args []string) {
 		}
 		ss := returnedStrings(f, fn)
 		if len(ss) == 0 {
+			if d, ok := dynStrings(repo, coq); ok {
+				p.notes = append(p.notes, fmt.Sprintf("%s: %s taken from the running code (source pattern not found)", rel, fn))
+				p.emitStrings(coq, d)
+				return
+			}
 			p.errs = append(p.errs, fmt.Sprintf("%s: no literal returns in %s", rel, fn))
 			return
 		}
@@ -312,6 +338,11 @@ func cmdParams(args []string) {
 	intOf(f, rel, "maxMIRecordSize", "p_sxg_max_mi_record_size")
 	if f != nil {
 		vs, ok := intsLit(findValue(f, "CacheableStatusCodes"))
+		if !ok {
+			if vs, ok = dynInts(repo, "p_cacheable_status_codes"); ok {
+				p.notes = append(p.notes, rel+": CacheableStatusCodes taken from the running code (source pattern not found)")
+			}
+		}
 		if !ok {
 			p.errs = append(p.errs, rel+": CacheableStatusCodes is not an []int literal")
 		} else {
@@ -359,6 +390,10 @@ func cmdParams(args []string) {
 	}
 	ok := len(p.errs) == 0
 	fmt.Printf("Definition p_translator_complete : bool := %v.\n", ok)
+	for _, e := range p.notes {
+		fmt.Println("(* translator note: " + strings.ReplaceAll(e, "*)", "* )") + " *)")
+		fmt.Fprintln(os.Stderr, "params note:", e)
+	}
 	for _, e := range p.errs {
 		fmt.Println("(* translator: " + strings.ReplaceAll(e, "*)", "* )") + " *)")
 		fmt.Fprintln(os.Stderr, "params:", e)
